@@ -321,6 +321,11 @@ Record MRI (b : st) (l : nat) : Prop := {
   r_ok : all_blk_ok b;
   r_geo : geo2 b l }.
 
+Lemma neg_of_Qltb0 s c : Qltb (sslack s c) 0 = true -> slack_val (base s) c < 0.
+Proof. intros Q. apply Qltb_spec in Q. exact Q. Qed.
+Lemma nonneg_of_Qltb0 s c : Qltb (sslack s c) 0 = false -> 0 <= slack_val (base s) c.
+Proof. intros Q. apply Qltb_false in Q. exact Q. Qed.
+
 Theorem mr_loop_all_sat : forall fuel s l c s',
   MRI (base s) l -> mr_roots_ok fuel s l c -> mr_loop fuel s l c = Ok s' ->
   all_sat0 (base s') /\ book (base s') /\ act_inv (base s') /\ all_blk_ok (base s') /\
@@ -336,7 +341,7 @@ Proof.
     destruct (Qltb (sslack s0 c0) 0) eqn:Q.
     + apply bind_ok in H. destruct H as [[[s1 l1] c1] [H1 H2]]. rewrite H1 in R.
       destruct (mr_body_exact _ _ _ _ _ _ H1) as [Eb El]. cbv zeta in Eb, El. rewrite E0 in Eb, El.
-      apply Qltb_spec in Q. unfold sslack in Q. rewrite E0 in Q.
+      apply neg_of_Qltb0 in Q. rewrite E0 in Q.
       set (b := base s) in *.
       set (sw := Nat.ltb (length (bvars (block_of b (blk_of b (cr (con_of b c0)))))) (length (bvars (block_of b l)))) in *.
       set (dist := off_of b (cl (con_of b c0)) + gap (con_of b c0) - off_of b (cr (con_of b c0))) in *.
@@ -351,7 +356,7 @@ Proof.
       destruct (IH s1 l1 c1 s' (Build_MRI _ _ BK' AI' W' OK' G') R H2) as [A [B1 [B2 [B3 [B4 B5]]]]].
       split; [exact A|]. split; [exact B1|]. split; [exact B2|]. split; [exact B3|]. split; congruence.
     + inversion H. subst s'. rewrite E0.
-      apply Qltb_false in Q. unfold sslack in Q. rewrite E0 in Q.
+      apply nonneg_of_Qltb0 in Q. rewrite E0 in Q.
       split; [|auto]. apply (geo2_exit _ l G). intros o Ho Lo Ro. destruct (RM o Ho Lo Ro) as [X|X]; lra.
   - inversion H. subst s'. split; [|auto]. apply (geo2_exit _ l G). exact RO.
 Qed.
